@@ -434,6 +434,80 @@ def enum_real(tier, shard, nshards):
                "name": names[i % len(names)], "old_sort": False}
 
 
+# ---- several files published at the same time into one blob directory (real worker threads) ---------------------------
+
+def run_concurrent(case):
+    out = Out()
+    import concurrent.futures
+
+    async def go(loop):
+        blob_pkg, blob_file, descriptor = _lbry()
+        ex = concurrent.futures.ThreadPoolExecutor(max_workers=6)
+        loop.set_default_executor(ex)
+        tmp = tempfile.mkdtemp(prefix="verif-c02c-")
+        blob_dir = os.path.join(tmp, "blobs")
+        os.mkdir(blob_dir)
+        try:
+            jobs = []
+            for k in range(case["n"]):
+                content = expand(b"conc%d" % k, case["seed"], case["size"] + 37 * k)
+                src = os.path.join(tmp, "src%d.bin" % k)
+                with open(src, "wb") as f:
+                    f.write(content)
+                key = hashlib.md5(b"key%d-%d" % (case["seed"], k)).digest()
+                jobs.append((content, key, src))
+            with _Patched(case["max_blob"]):
+                try:
+                    results = await asyncio.wait_for(asyncio.gather(*(descriptor.StreamDescriptor.create_stream(
+                        loop, blob_dir, src, key=key) for (_, key, src) in jobs), return_exceptions=True), 120)
+                except asyncio.TimeoutError:
+                    out.label("inconclusive:concurrent-publish-slow")
+                    return
+            for k, ((content, key, _), d) in enumerate(zip(jobs, results)):
+                if isinstance(d, BaseException):
+                    out.violate("concurrent-publish:create-stream-raises:%s" % type(d).__name__, "stream %d of %d: %r" % (k, case["n"], d))
+                    return
+                plain = []
+                for i, b in enumerate(d.blobs[:-1]):
+                    try:
+                        with open(os.path.join(blob_dir, b.blob_hash), "rb") as f:
+                            raw = f.read()
+                    except OSError as e:
+                        out.violate("concurrent-publish:data-blob-file-missing", "stream %d blob %d: %r" % (k, i, e))
+                        return
+                    if hashlib.sha384(raw).hexdigest() != b.blob_hash or len(raw) != b.length:
+                        out.violate("concurrent-publish:blob-file-holds-other-bytes", "stream %d blob %d: %d bytes on disk, "
+                                    "length field %r" % (k, i, len(raw), b.length))
+                        return
+                    try:
+                        plain.append(aes_cbc_decrypt(key, bytes.fromhex(b.iv), raw))
+                    except ValueError as e:
+                        out.violate("concurrent-publish:blob-does-not-decrypt", "stream %d blob %d: %s" % (k, i, e))
+                        return
+                if b"".join(plain) != content:
+                    out.violate("concurrent-publish:roundtrip-differs", "stream %d of %d" % (k, case["n"]))
+                    return
+                try:
+                    with open(os.path.join(blob_dir, d.sd_hash), "rb") as f:
+                        sd_raw = f.read()
+                except OSError as e:
+                    out.violate("concurrent-publish:sd-blob-file-missing", "stream %d: %r" % (k, e))
+                    return
+                out.check(hashlib.sha384(sd_raw).hexdigest() == d.sd_hash, "concurrent-publish:sd-blob-holds-other-bytes", "stream %d" % k)
+            out.label("concurrent_streams:%d" % case["n"])
+            out.nontrivial = True
+        finally:
+            shutil.rmtree(tmp, ignore_errors=True)
+            ex.shutdown(wait=True)
+    run_fresh(go)
+    return out
+
+
+def concurrent_case():
+    return st.fixed_dictionaries({"n": st.integers(2, 8), "seed": st.integers(0, 10 ** 6), "size": st.integers(1, 4000),
+                                  "max_blob": st.sampled_from([64, 256, 1024, 4096])})
+
+
 # ---------------------------------------------------------------------------------------------------------------
 # Domain B: tampered descriptors
 
@@ -875,6 +949,8 @@ PARTS = [
                     "size_one_byte_more", "name_special", "exec:deferred_lifo")),
     Part("stream_real", None, run_stream, 0, 0, quick_shards=4, thorough_shards=16, enumerate_cases=enum_real,
          essential=("mode:real", "data_blobs_1", "data_blobs_2", "data_blobs_3")),
+    Part("concurrent_publish", lambda tier: concurrent_case(), run_concurrent, 40, 400, quick_shards=4, thorough_shards=16,
+         essential=("concurrent_streams:2", "concurrent_streams:8")),
     Part("tamper", lambda tier: tamper_case(), run_tamper, 2000, 20000, quick_shards=4, thorough_shards=16,
          essential=("class:hash_mismatch", "class:invariant", "class:unparsable", "class:malformed", "class:consistent",
                     "hash_neutral_accepted", "recommitted", "tamper:remove_terminator", "tamper:swap", "tamper:none",
